@@ -161,6 +161,8 @@ func applyLayout(kind string, text []byte, l Layout, recLines []int) []byte {
 }
 
 func runC04(t *testing.T, c *Case, o RunOpts) *Result {
+	noteCase(c)
+	defer progress.Add(1)
 	var pl C04Plan
 	if err := json.Unmarshal(c.Plan, &pl); err != nil {
 		return &Result{ToolErr: err.Error()}
